@@ -119,7 +119,9 @@ def check_args(cmd, call, path="") -> tuple[str, dict] | None:
                 if not (isinstance(g, ast.Starred) and is_xonsh_call(g.value, "list_of_strs_or_callables") and len(g.value.args) == 1):
                     return ("pyexpr-shape", {"at": here, "expected": e[1], "got": ast.unparse(g)[:80]})
                 ref = ast.parse(e[2], mode="eval").body if " for " not in e[2] else ast.parse(f"({e[2]})", mode="eval").body
-                if astdiff(ref, g.value.args[0], positions=False) is not None:
+                from .c10 import strip_empty_spec_constants  # CPython's own artefacts inside format specs (see C10)
+
+                if astdiff(strip_empty_spec_constants(ref), strip_empty_spec_constants(g.value.args[0]), positions=False) is not None:
                     return ("pyexpr-content", {"at": here, "expected": e[2], "got": ast.unparse(g.value.args[0])[:80]})
             elif kind == "inject":
                 if not (isinstance(g, ast.Starred) and isinstance(g.value, ast.Call)):
